@@ -20,8 +20,13 @@ def oracle_c09(seed, tier):
     return oracle_cache.check_c09(seed, tier)
 
 
+def corr_product_cache_first(seed, tier):
+    import corr_product_cached
+    return corr_product_cached.check(seed, tier)
+
+
 def checks(tier):
-    return [corr_json,corr_flow, oracle_c09]
+    return [corr_json,corr_flow, oracle_c09, corr_product_cache_first]
 
 
 def replay(payload):
